@@ -70,6 +70,12 @@ func NewPrefix(ssid Ssid, from int64) ID {
 	return id
 }
 
+// Valid checks whether the ID has its fixed header and at least the contract
+// part of the SSID, identifiers received from the network may not.
+func (id ID) Valid() bool {
+	return len(id) >= fixed+4
+}
+
 // SetTime sets the time on the ID, useful for testing.
 func (id ID) SetTime(t int64) {
 	binary.BigEndian.PutUint32(id[4:8], math.MaxUint32-uint32(t-offset))
